@@ -15,7 +15,9 @@
    the panel at every byte offset; for cancellation only the time bound c11_returns_after_cancel
    and the fact that every read ends by the local close (c11_cancel_ends_connection) are proved. *)
 From RP Require Import Lib.Base Lib.Varint Model.Net Model.Client Model.Lifecycle Spec.NetSpec
-     Proofs.NetProofs Proofs.NetFrameProofs Proofs.NetLifeProofs Proofs.NetTimedProofs.
+     Proofs.NetProofs Proofs.NetFrameProofs Proofs.NetLifeProofs Proofs.NetTimedProofs
+     Model.Teardown Proofs.TeardownProofs.
+Open Scope Z_scope.
 
 (* connect and disconnect callbacks strictly alternate, starting with connect *)
 Theorem c11_callbacks_alternate : forall cs, alternate true (cbs (snd (run init cs))) = true.
@@ -70,6 +72,54 @@ Example c11_legacy_wg_gap :
   s_wg (fst (run_legacy init (wg_gap_schedule ++ [CWriter 0 WNone]))) = 1 /\
   s_wg (fst (run init wg_gap_schedule)) = 1.
 Proof. exact legacy_wg_gap. Qed.
+
+
+(* ---- cancellation against an ADVERSARIAL panel (Model/Teardown.v): it sends nothing and reads nothing,
+   so a blocked Read or Write of the client ends only when the client closes its own socket.  Three
+   goroutines per connection since /repo 02bcd7d: read loop, writer, watcher. ---- *)
+
+(* after the cancellation, in every reachable state, either the call has left the connection and all
+   three goroutines have finished, or one of them can move by itself *)
+Theorem c11_teardown_progress : forall s, Reachable true s -> t_ctx s = true ->
+  all_done s = true \/ internal s <> [].
+Proof. exact progress_after_cancel. Qed.
+Print Assumptions c11_teardown_progress.
+
+(* ... and they cannot move for long: every run of internal steps from such a state has at most
+   rank s <= 17 steps, and where it cannot be continued everything has finished.  "After cancellation
+   the call returns within a bounded time with every internal goroutine finished", for every state the
+   connection can be in - the writer blocked inside conn.Write included *)
+Theorem c11_teardown_terminates : forall l s e, Reachable true s -> t_ctx s = true -> IntRun s l e ->
+  (length l <= rank s)%nat /\ (internal e = [] -> all_done e = true).
+Proof. exact teardown_terminates. Qed.
+Print Assumptions c11_teardown_terminates.
+
+Theorem c11_teardown_rank_bound : forall w s, Reachable w s -> (rank s <= 17)%nat.
+Proof. exact rank_bound. Qed.
+Print Assumptions c11_teardown_rank_bound.
+
+(* the wait group counts exactly the writer and the watcher that have not finished, in both code versions *)
+Theorem c11_teardown_wg : forall w s, Reachable w s ->
+  t_wg s = (live (t_w s) + live (t_x s))%nat /\ (t_wg s = 0%nat -> t_w s = GDone /\ t_x s = GDone).
+Proof. exact (fun w s H => conj (wg_counts w s H) (wg_zero_all_finished w s H)). Qed.
+Print Assumptions c11_teardown_wg.
+
+(* FINDING F19, the code before 02bcd7d (no watcher): connection established, the writer takes a
+   message and blocks in Write, the context is cancelled - a reachable state in which the context IS
+   cancelled, nothing has finished, and neither the library nor the environment has a step left.
+   Confirmed on the real code by harness scenario writer-blocked-cancel (c11-no-return), repaired, and
+   the scenario stays in the check; Run/C11.v compares the observed outcome with
+   blocked_cancel_outcome true. *)
+Theorem c11_legacy_blocked_writer_refuted :
+  let s := blocked_then_cancelled false in
+  Reachable false s /\ t_ctx s = true /\ all_done s = false /\ internal s = [] /\ env s = [].
+Proof. exact legacy_blocked_writer_stuck. Qed.
+Print Assumptions c11_legacy_blocked_writer_refuted.
+
+Example c11_blocked_writer_outcomes :
+  blocked_cancel_outcome true = Some true /\ blocked_cancel_outcome false = None /\
+  Reachable true (blocked_then_cancelled true).
+Proof. exact (conj (proj1 repaired_blocked_writer_returns) (conj (proj2 repaired_blocked_writer_returns) (blocked_reachable true))). Qed.
 
 (* the panel drops the connection at ANY instant after ANY prefix of its stream (every byte
    offset): exactly the frames completely received before the drop are delivered, each once,
